@@ -677,6 +677,19 @@ Section Exp.
     - apply unrelated_not_rescaled; auto.
   Qed.
 
+  Theorem horizontal_diffusion_filter_nonspectral L lw (s r : F) order (x : arr) :
+    L <> 1%nat ->
+    (fst x = [] \/ fst x = [1%nat] \/ exists pre d, fst x = pre ++ [d] /\ d <> L) ->
+    horizontal_diffusion_filter fexp L lw (scalar_arr s) r order [x] = Some [x].
+  Proof.
+    intros HL Hx. unfold horizontal_diffusion_filter. rewrite hd_filter_exponent_scalar.
+    cbn [filter_tree map]. rewrite rescale_false; [reflexivity|]. unfold map_arr. cbn [fst].
+    destruct Hx as [E|[E|(pre & d & E & Hd)]]; rewrite E.
+    - apply scalar_not_rescaled. discriminate.
+    - now apply clock_not_rescaled.
+    - apply unrelated_not_rescaled; auto.
+  Qed.
+
   (** step-size consistency on leaves: two half steps = one full step *)
   Theorem exponential_step_twice L lw (dt tau c : F) p (x : arr) idx eh ef :
     tau <> 0 ->
